@@ -2,33 +2,50 @@
 Model of WHO may make a paloma message take effect (property C03).
 
 Code modelled (as it is, not as it should be):
+* the SDK signature verification, as far as the property needs it: a transaction is signed by
+  exactly the (de-duplicated) signers its messages declare (`cosmos.msg.v1.signer = "metadata"` →
+  `MsgMetadata.signers`; three `MsgUpdateParams` declare their `Authority` field instead);
 * `x/paloma/ante.go` `VerifyAuthorisedSignatureDecorator.AnteHandle`: for every message with
-  paloma metadata, `creator` must be one of `metadata.signers` or one of the signers must hold a
-  fee allowance granted BY `creator` (`AllowancesByGranter(creator)` looked up by grantee).  The
-  `simulate` bypass is irrelevant to delivery.  `metadata.signers` are the transaction's required
-  signers (`cosmos.msg.v1.signer = "metadata"` → `MsgMetadata.signers`), checked by the SDK's
-  signature verification which runs first; three `MsgUpdateParams` are signed by their `authority`
-  field instead.
-* every `msg_server*.go` handler, abstracted to the principal in whose name it writes (`Rule`),
-  and every string / bytes field of the request types, abstracted to a `Role`.
+  paloma metadata, `creator` must be one of `metadata.signers` or one of `metadata.signers` must
+  hold a fee allowance granted BY `creator` (`AllowancesByGranter(creator)` looked up by grantee),
+  message by message.  The `simulate` bypass is irrelevant to delivery;
+* every `msg_server*.go` handler, abstracted to its authorisation semantics `Sem`: which
+  principals key what it writes (the metadata creator, identity-bearing request fields), which
+  comparisons it makes before writing (field = creator, field / creator = keeper authority,
+  external-chain signature of the named validator), which fields only name a beneficiary.  The
+  delivery functions below INTERPRET a `Sem`; `Props/C03.lean` computes the `Sem` of every handler
+  from facts extracted from the Go source (`Gen/Auth.lean`) — not from the hand-written `rules`
+  table, which is proved to agree with it.
 
-The two tables are DATA keyed by "<module>.<RPC method>" (the names the Go message zoo uses) and
-are checked against facts extracted from the Go source in `Props/C03.lean` (`Gen/Auth.lean`).
-Core Lean only.
+The hand-written tables (`rules`, `roles`, …) are DATA keyed by "<module>.<RPC method>" (the names
+the Go message zoo uses); they drive the verdicts of the driver and are checked against the
+generated facts in `Props/C03.lean`.  Core Lean only.
 -/
 namespace Paloma.Auth
 
 abbrev Addr := Nat
 
+/-- what the chain keeps on behalf of ONE principal: a list of records.  Handlers may add,
+    alter and remove records (any function `Val → Val`). -/
+abbrev Val := List Nat
+
 /-- a paloma message as the authorisation layer sees it -/
 structure Msg where
   typ : String
-  /-- `metadata.signers` = the signers the transaction must carry -/
+  /-- `metadata.signers` -/
   signers : List Addr
   /-- `metadata.creator` -/
   creator : Addr
-  /-- the other identity-bearing fields, by index -/
-  idField : Nat → Addr
+  /-- the principal every identity-bearing request field denotes, by field path (`none`: the
+      type has no such field, or its content is not an address — a handler that needs it errs) -/
+  field : String → Option Addr
+  /-- the external-chain signature carried by the message, abstractly: the key that made it
+      (0: nobody's) … -/
+  sigKey : Nat := 0
+  /-- … and the item it was made over -/
+  sigItem : Nat := 0
+  /-- the item the message is about (the batch it confirms, the checkpoint it accuses) -/
+  item : Nat := 0
 
 /-- in whose name a handler writes -/
 inductive Rule where
@@ -129,12 +146,39 @@ def rules : List (String × Rule) := [
 def creatorCheckedInValidateBasic : List String := ["treasury.UpsertRelayerFee"]
 
 /-- types whose transaction signer is the `Authority` field (`cosmos.msg.v1.signer = "authority"`) -/
-def authoritySigned : List String := ["paloma.UpdateParams", "tokenfactory.UpdateParams", "skyway.UpdateParams"]
+def authoritySigned : List String := ["paloma.UpdateParams", "skyway.UpdateParams", "tokenfactory.UpdateParams"]
 
 /-- identity field index 0 of the `sigProven` types, by name (for the driver / the harness) -/
 def sigProvenField : List (String × String) := [
   ("skyway.ConfirmBatch", "Orchestrator"),
   ("skyway.SubmitBadSignatureEvidence", "Signature")
+]
+
+/-- governance-gated handlers that compare only the `Authority` field (the transaction signer)
+    with the keeper's authority and never look at `metadata.creator` -/
+def authorityIgnoresCreator : List String := ["skyway.UpdateParams"]
+
+/-- the state-keyed handler: registers every grantee of the light-node feegranter -/
+def legacyType : String := "paloma.SetLegacyLightNodeClients"
+
+/-- identity-LOOKING request fields (address-typed, parsed as an address, or named like one — see
+    `idFields` in Gen/Auth.lean) that do NOT denote a paloma principal the handler writes for.
+    Every entry is a trusted reading of the handler, exercised by harness scenario `c1`. -/
+def notPrincipal : List (String × String × String) := [
+  ("consensus.AddMessageEstimates", "Estimates.EstimatedByAddress", "carried, never read: the estimate is filed under the creator's validator address"),
+  ("consensus.AddMessagesSignatures", "SignedMessages.SignedByAddress", "an external-chain address, resolved by valset.GetSigningKey among the CREATOR validator's own accounts"),
+  ("skyway.ConfirmBatch", "EthSigner", "an external-chain key; must equal the key registered by the ORCHESTRATOR (Batch confirmations below)"),
+  ("skyway.EstimateBatchGas", "EthSigner", "an external-chain address stored inside the creator's own estimate, format-checked only"),
+  ("skyway.LightNodeSaleClaim", "SmartContractAddress", "an external-chain contract address, part of the attested event"),
+  ("skyway.SendToPalomaClaim", "EthereumSender", "an external-chain address, part of the attested event"),
+  ("skyway.SubmitBadSignatureEvidence", "Sender", "deprecated, never read"),
+  ("valset.AddExternalChainInfoForValidator", "ChainInfos.Address", "the creator's claimed external account; a collision with another validator's is rejected")
+]
+
+/-- `equatedWithCreator` roles that are NOT backed by a syntactic comparison / overwrite in the
+    handler but by a lookup among the creator's own records -/
+def equatedByLookup : List (String × String) := [
+  ("consensus.AddMessagesSignatures", "SignedMessages.SignedByAddress")
 ]
 
 /-- Role of EVERY string / bytes field of every request type (path as in Gen/Auth.lean). -/
@@ -168,7 +212,9 @@ def roles : List (String × String × Role) := [
   ("paloma.AddStatusUpdate", "Status", .freeText),
   ("paloma.AddStatusUpdate", "Args.Key", .freeText),
   ("paloma.AddStatusUpdate", "Args.Value", .freeText),
-  ("paloma.UpdateParams", "Authority", .authorityField),
+  -- compared with the keeper's authority by the handler AND with the creator by ValidateBasic
+  -- (which baseapp runs for transactions and the handler calls itself)
+  ("paloma.UpdateParams", "Authority", .equatedWithCreator),
   ("paloma.UpdateParams", "Params.GasExemptAddresses", .target),
   ("scheduler.CreateJob", "Job.ID", .freeText),
   -- overwritten with the creator before the job is stored
@@ -245,114 +291,7 @@ def ruleOf (typ : String) : Option Rule := (rules.find? (·.1 == typ)).map (·.2
 def roleOf (typ field : String) : Option Role :=
   (roles.find? (fun r => r.1 == typ && r.2.1 == field)).map (·.2.2)
 
-/-! ## Delivery -/
-
-/-- exactly `VerifyAuthorisedSignatureDecorator`: the creator signed, or a signer holds a fee
-    allowance granted by the creator (`grants granter grantee`) -/
-def anteOk (m : Msg) (grants : Addr → Addr → Bool) : Bool :=
-  m.signers.contains m.creator || m.signers.any (fun s => grants m.creator s)
-
-/-- state attributed to principals (abstract: a counter per principal) and the fee grants -/
-structure State where
-  slots : Addr → Nat
-  grants : Addr → Addr → Bool
-
-/-- what the model leaves abstract -/
-structure Cfg where
-  /-- the governance authority -/
-  authority : Addr
-  ruleOf : String → Option Rule
-  /-- identity field `f` of `m` is backed by that principal's own external-chain signature -/
-  sigOk : Msg → Nat → Bool
-  /-- the handler's remaining (state dependent) checks pass -/
-  handlerOk : State → Msg → Bool
-  /-- effect of an `open_` message: nothing is claimed about it -/
-  openEffect : Msg → (Addr → Nat) → (Addr → Nat)
-
-def bump (slots : Addr → Nat) (a : Addr) : Addr → Nat :=
-  fun x => if x = a then slots x + 1 else slots x
-
-/-- the handler of a message whose type has rule `r`, after the ante chain let it through -/
-def applyRule (cfg : Cfg) (s : State) (m : Msg) : Rule → State
-  | .actsFor => { s with slots := bump s.slots m.creator }
-  | .authorityOnly =>
-    if m.creator = cfg.authority then { s with slots := bump s.slots cfg.authority } else s
-  | .sigProven f =>
-    if cfg.sigOk m f = true then { s with slots := bump s.slots (m.idField f) } else s
-  | .open_ _ => { s with slots := cfg.openEffect m s.slots }
-
-/-- one delivered transaction carrying `m`: ante chain, then the handler (rejections leave the
-    state untouched: a failed transaction's writes are discarded) -/
-def deliver (cfg : Cfg) (s : State) (m : Msg) : State :=
-  if anteOk m s.grants = false then s
-  else if cfg.handlerOk s m = false then s
-  else match cfg.ruleOf m.typ with
-    | none => s
-    | some r => applyRule cfg s m r
-
-/-! ## Multi-message transactions -/
-
-/-- The decorator loops over `tx.GetMsgs()` and checks EVERY message on its own: the message's
-    creator against the message's signers, and otherwise the allowances granted by THAT creator
-    (`grantsLkUp` is built afresh from `AllowancesByGranter(creator)` inside the loop).  A grant
-    from the creator of one message says nothing about the creator of another. -/
-def anteOkTx (msgs : List Msg) (grants : Addr → Addr → Bool) : Bool :=
-  msgs.all (fun m => anteOk m grants)
-
-/-- does the handler of a message with rule `r` accept (its authorisation part)? -/
-def accepts (cfg : Cfg) (m : Msg) : Rule → Bool
-  | .actsFor => true
-  | .authorityOnly => m.creator == cfg.authority
-  | .sigProven f => cfg.sigOk m f
-  | .open_ _ => true
-
-/-- handler of one message inside a transaction; `none` = the handler returns an error -/
-def handle (cfg : Cfg) (s : State) (m : Msg) : Option State :=
-  if cfg.handlerOk s m = false then none
-  else match cfg.ruleOf m.typ with
-    | none => none
-    | some r => if accepts cfg m r = true then some (applyRule cfg s m r) else none
-
-/-- the messages of a transaction run in order on the same branch; the first error aborts -/
-def handleAll (cfg : Cfg) : State → List Msg → Option State
-  | s, [] => some s
-  | s, m :: ms =>
-    match handle cfg s m with
-    | none => none
-    | some s' => handleAll cfg s' ms
-
-/-- a transaction is accepted iff the ante chain lets every message through and no handler errs -/
-def txAccepted (cfg : Cfg) (s : State) (msgs : List Msg) : Bool :=
-  anteOkTx msgs s.grants && (handleAll cfg s msgs).isSome
-
-/-- one delivered transaction with several messages: atomic (a rejected transaction's writes,
-    including those of the messages before the failing one, are discarded) -/
-def deliverTx (cfg : Cfg) (s : State) (msgs : List Msg) : State :=
-  if anteOkTx msgs s.grants = false then s
-  else match handleAll cfg s msgs with
-    | none => s
-    | some s' => s'
-
-/-- histories: fee grants are themselves transactions (feegrant's MsgGrantAllowance /
-    MsgRevokeAllowance are signed by the granter) -/
-inductive Op where
-  | grant (granter grantee : Addr)
-  | revoke (granter grantee : Addr)
-  | tx (m : Msg)
-  | mtx (ms : List Msg)
-
-def setGrant (g : Addr → Addr → Bool) (a b : Addr) (v : Bool) : Addr → Addr → Bool :=
-  fun x y => if x = a ∧ y = b then v else g x y
-
-def step (cfg : Cfg) (s : State) : Op → State
-  | .grant a b => { s with grants := setGrant s.grants a b true }
-  | .revoke a b => { s with grants := setGrant s.grants a b false }
-  | .tx m => deliver cfg s m
-  | .mtx ms => deliverTx cfg s ms
-
-def run (cfg : Cfg) (s : State) (ops : List Op) : State := ops.foldl (step cfg) s
-
-/-! ## Executable verdicts used by the driver -/
+/-! ## Signature verification and the decorator -/
 
 /-- Does the SDK signature check pass?  `txSigners` signed the transaction; the message demands
     `m.signers` (metadata) or, for the authority-signed types, the `Authority` field. -/
@@ -367,10 +306,202 @@ def sigCheck (typ : String) (txSigners declared : List Addr) (authorityField : O
 def declaredSigners (typ : String) (metaSigners : List Addr) (authorityField : Option Addr) : List Addr :=
   if authoritySigned.contains typ then authorityField.toList else metaSigners
 
-/-- SDK signature check of a multi-message transaction: the transaction must be signed by exactly
-    the de-duplicated concatenation of the signers its messages demand (in order of appearance). -/
+/-- SDK signature check of a transaction: it must be signed by exactly the de-duplicated
+    concatenation of the signers its messages demand (in order of appearance).
+    ASSUMPTION (SDK): every account in `txSigners` really signed the transaction bytes. -/
 def sigCheckTx (txSigners : List Addr) (declared : List (List Addr)) : Bool :=
   txSigners == (declared.flatten).eraseDups
+
+/-- exactly `VerifyAuthorisedSignatureDecorator` for one message: the creator is among
+    `metadata.signers`, or one of them holds a fee allowance granted by the creator
+    (`grants granter grantee`) -/
+def anteOk (m : Msg) (grants : Addr → Addr → Bool) : Bool :=
+  m.signers.contains m.creator || m.signers.any (fun s => grants m.creator s)
+
+/-- The decorator loops over `tx.GetMsgs()` and checks EVERY message on its own: the message's
+    creator against the message's signers, and otherwise the allowances granted by THAT creator
+    (`grantsLkUp` is built afresh from `AllowancesByGranter(creator)` inside the loop).  A grant
+    from the creator of one message says nothing about the creator of another. -/
+def anteOkTx (msgs : List Msg) (grants : Addr → Addr → Bool) : Bool :=
+  msgs.all (fun m => anteOk m grants)
+
+/-! ## Handlers -/
+
+/-- state attributed to principals and the fee grants in force -/
+structure State where
+  slots : Addr → Val
+  grants : Addr → Addr → Bool
+
+/-- Authorisation semantics of one handler (data; computed from the Go source in Props/C03):
+* `usesCreator`  it writes in the name of `metadata.creator`;
+* `keyed`        identity-bearing request fields whose principal keys something it writes;
+* `eqCreator`    fields it (or the request's ValidateBasic) compares with `metadata.creator`,
+                 returning an error on a mismatch;
+* `sigFields`    fields whose principal must have made the external-chain signature the message
+                 carries, over exactly the item the message is about;
+* `eqAuthority`  fields it compares with the keeper's governance authority;
+* `creatorIsAuthority` it compares `metadata.creator` with the governance authority;
+* `targets`      fields that only name a beneficiary: records are ADDED for it;
+* `stateKeyed`   it writes for principals computed from chain state, not from the message (the
+                 light-node migration: every pending grantee of the light-node feegranter). -/
+structure Sem where
+  usesCreator : Bool := false
+  keyed : List String := []
+  eqCreator : List String := []
+  sigFields : List String := []
+  eqAuthority : List String := []
+  creatorIsAuthority : Bool := false
+  targets : List String := []
+  stateKeyed : Bool := false
+deriving Repr, DecidableEq
+
+/-- what the model leaves abstract -/
+structure Env where
+  /-- the governance authority (gov module account) -/
+  authority : Addr
+  /-- the governance-configured light-node feegranter account -/
+  lightFeegranter : Addr
+  semOf : String → Option Sem
+  /-- the external-chain key each validator registered (`none`: no validator / no key / unbonded);
+      registration itself is modelled in "Batch confirmations" below -/
+  regKey : Addr → Option Nat
+  /-- the handler's remaining (state dependent) checks pass -/
+  handlerOk : State → Msg → Bool
+  /-- what the handler does to the records of a principal it writes FOR: anything — add, alter,
+      remove -/
+  eff : State → Msg → Addr → Val → Val
+  /-- the records it adds for a beneficiary -/
+  gift : State → Msg → Addr → Val
+  /-- what a governance-gated handler does: anything, to anybody's records -/
+  govEff : State → Msg → (Addr → Val) → (Addr → Val)
+  /-- light-node migration: the grantee has neither a client record nor a pending licence -/
+  pending : State → Addr → Bool
+
+/-- "carrying the validator's own external-chain signature over the exact item": the signature in
+    `m` was made by the key principal `p` registered, over exactly the item `m` is about.
+    ASSUMPTION: ECDSA recovery is sound (a signature is the abstract pair (key, item)). -/
+def extSigOk (env : Env) (m : Msg) (p : Addr) : Bool :=
+  env.regKey p == some m.sigKey && m.sigItem == m.item
+
+/-- the comparisons the handler makes before it writes; `false` = it returns an error -/
+def guardsOk (env : Env) (m : Msg) (sem : Sem) : Bool :=
+  sem.eqCreator.all (fun f => m.field f == some m.creator)
+  && sem.eqAuthority.all (fun f => m.field f == some env.authority)
+  && (!sem.creatorIsAuthority || m.creator == env.authority)
+  && sem.sigFields.all (fun f => match m.field f with
+      | some p => extSigOk env m p
+      | none => false)
+  && sem.keyed.all (fun f => (m.field f).isSome)
+
+/-- the handler is gated on the governance authority -/
+def isGov (sem : Sem) : Bool := sem.creatorIsAuthority || !sem.eqAuthority.isEmpty
+
+/-- the principals the handler writes for -/
+def writeKeys (m : Msg) (sem : Sem) : List Addr :=
+  (if sem.usesCreator then [m.creator] else []) ++ sem.keyed.filterMap m.field
+
+/-- the beneficiaries it names -/
+def giftKeys (m : Msg) (sem : Sem) : List Addr := sem.targets.filterMap m.field
+
+/-- the records of `x` after the handler wrote for it (if it does) -/
+def own (env : Env) (s : State) (m : Msg) (sem : Sem) (x : Addr) : Val :=
+  if (writeKeys m sem).contains x then env.eff s m x (s.slots x) else s.slots x
+
+/-- the records ADDED for `x`: as a named beneficiary, and by the state-keyed migration -/
+def added (env : Env) (s : State) (m : Msg) (sem : Sem) (x : Addr) : Val :=
+  (if (giftKeys m sem).contains x then env.gift s m x else [])
+  ++ (if (sem.stateKeyed && s.grants env.lightFeegranter x && env.pending s x) = true then env.gift s m x else [])
+
+/-- everybody's records after an accepted message -/
+def newSlots (env : Env) (s : State) (m : Msg) (sem : Sem) : Addr → Val :=
+  if isGov sem = true then env.govEff s m s.slots
+  else fun x => own env s m sem x ++ added env s m sem x
+
+/-- handler of one message; `none` = it returns an error (also: unknown message type — the router
+    refuses it) -/
+def handle (env : Env) (s : State) (m : Msg) : Option State :=
+  match env.semOf m.typ with
+  | none => none
+  | some sem =>
+    if (env.handlerOk s m && guardsOk env m sem) = true then some { s with slots := newSlots env s m sem }
+    else none
+
+/-- the messages of a transaction run in order on the same branch; the first error aborts -/
+def handleAll (env : Env) : State → List Msg → Option State
+  | s, [] => some s
+  | s, m :: ms =>
+    match handle env s m with
+    | none => none
+    | some s' => handleAll env s' ms
+
+/-! ## Transactions and histories -/
+
+/-- a transaction: the accounts whose signatures the SDK verified, and its messages -/
+structure Tx where
+  signers : List Addr
+  msgs : List Msg
+
+/-- the signers message `m` demands -/
+def declared (m : Msg) : List Addr := declaredSigners m.typ m.signers (m.field "Authority")
+
+/-- accepted iff it carries a message, the signature check passes, the decorator lets every
+    message through and no handler errs -/
+def txAccepted (env : Env) (s : State) (tx : Tx) : Bool :=
+  !tx.msgs.isEmpty && sigCheckTx tx.signers (tx.msgs.map declared) && anteOkTx tx.msgs s.grants
+    && (handleAll env s tx.msgs).isSome
+
+/-- one delivered transaction: atomic (a rejected transaction's writes, including those of the
+    messages before the failing one, are discarded) -/
+def deliverTx (env : Env) (s : State) (tx : Tx) : State :=
+  if tx.msgs.isEmpty = true then s
+  else if sigCheckTx tx.signers (tx.msgs.map declared) = false then s
+  else if anteOkTx tx.msgs s.grants = false then s
+  else match handleAll env s tx.msgs with
+    | none => s
+    | some s' => s'
+
+/-- a transaction with one message -/
+def deliver (env : Env) (s : State) (signers : List Addr) (m : Msg) : State := deliverTx env s ⟨signers, [m]⟩
+
+/-- Histories.  Fee grants are themselves transactions.  ASSUMPTION (x/feegrant): a
+    `MsgGrantAllowance` / `MsgRevokeAllowance` is signed by the granter; the only grants paloma
+    creates itself are those of the governance-configured light-node feegranter to the buyer of an
+    attested light-node sale (property C18). -/
+inductive Op where
+  | grant (granter grantee : Addr)
+  | revoke (granter grantee : Addr)
+  | tx (t : Tx)
+  /-- a message executed as part of a governance proposal: through the message router, without
+      the ante chain.  ASSUMPTION (x/gov): only proposals that passed the vote are executed — this
+      IS "the governance authority" acting, whatever creator the message names. -/
+  | gov (m : Msg)
+
+def setGrant (g : Addr → Addr → Bool) (a b : Addr) (v : Bool) : Addr → Addr → Bool :=
+  fun x y => if x = a ∧ y = b then v else g x y
+
+/-- a message of an executed proposal: the handler alone decides (its error leaves the state) -/
+def deliverGov (env : Env) (s : State) (m : Msg) : State :=
+  match handle env s m with
+  | none => s
+  | some s' => s'
+
+def step (env : Env) (s : State) : Op → State
+  | .grant a b => { s with grants := setGrant s.grants a b true }
+  | .revoke a b => { s with grants := setGrant s.grants a b false }
+  | .tx t => deliverTx env s t
+  | .gov m => deliverGov env s m
+
+def run (env : Env) (s : State) (ops : List Op) : State := ops.foldl (step env) s
+
+/-- nothing attributed to anybody, no grants -/
+def init : State := { slots := fun _ => [], grants := fun _ _ => false }
+
+/-! ## Executable verdicts used by the driver -/
+
+/-- may a governance-gated handler accept?  (`authorityField`: the `Authority` field, if any) -/
+def authorityOkOf (authority : Addr) (typ : String) (creator : Addr) (authorityField : Option Addr) : Bool :=
+  (authorityField == none || authorityField == some authority)
+  && (authorityIgnoresCreator.contains typ || creator == authority)
 
 /-- May delivering a message of type `typ` legitimately change state attributed to `victim`?
 `alteration = false`: only NEW records that mention the victim appeared; `true`: something that
@@ -482,10 +613,18 @@ def dInit : DState := { den := fun _ => none, writes := fun _ => 0, grants := fu
 `x/skyway/keeper/msg_server.go` `ConfirmBatch` + `confirmHandlerCommon`, in statement order: the
 batch named by (token contract, nonce) must exist; the validator is looked up from the
 ORCHESTRATOR field (never from the sender); its registered key on the batch's chain must equal the
-`eth_signer` field; the signature must recover to that key over the batch's checkpoint; one
-confirmation per (batch, orchestrator) and per (batch, key); `SetBatchConfirm` files the message
-under the orchestrator.  The sender (`metadata.creator`) is not looked at by the handler at all:
-relaying a validator's signature is legitimate, filing one's own under another validator is not.
+`eth_signer` field (both parsed to 20-byte accounts); the signature must recover to that key over
+the batch's checkpoint; one confirmation per (batch, orchestrator) and per (batch, key);
+`SetBatchConfirm` files the message under the orchestrator.  The sender (`metadata.creator`) is
+not looked at by the handler at all: relaying a validator's signature is legitimate, filing one's
+own under another validator is not.
+
+The key a validator "owns" is the one IT registered: `valset.AddExternalChainInfoForValidator`
+(`SetExternalChainInfoState`), a handler that acts for `metadata.creator` and refuses an address
+STRING another validator already holds (exact string comparison, `cRegister`).  Registered
+address strings are naturals `x` whose 20-byte account is `x / 4` and whose spelling (hex case)
+is `x % 4` — the same convention as Model/Queue.lean (`register` / `collides` there, tied to the
+implementation by the C06 harness); one chain, the public-key bytes are left out.
 
 Signatures are abstract: a signature is the pair (key that made it, item it was made over) —
 ECDSA recovery soundness is trusted (the harness re-verifies with go-ethereum). -/
@@ -496,7 +635,7 @@ structure CAttempt where
   batchExists : Bool
   batch : Nat
   orch : Addr
-  /-- the key named in `eth_signer` -/
+  /-- the key (account) named in `eth_signer` -/
   ethSigner : Nat
   /-- the key that made the signature (0: nobody's) -/
   sigKey : Nat
@@ -514,31 +653,70 @@ deriving Repr, DecidableEq
 structure CState where
   confirms : List CConfirm
   grants : Addr → Addr → Bool
+  /-- the address string each validator registered for the batch's chain (`none`: no validator /
+      nothing registered / unbonded) -/
+  keys : Addr → Option Nat
+
+/-- the 20-byte account an address string denotes (`common.HexToAddress` is case-insensitive) -/
+def acctOf (x : Nat) : Nat := x / 4
+
+/-- `GetEthAddressByValidator`, parsed -/
+def regAcct (s : CState) (v : Addr) : Option Nat := (s.keys v).map acctOf
 
 def cAnteOk (a : CAttempt) (g : Addr → Addr → Bool) : Bool :=
   a.signers.contains a.creator || a.signers.any (fun s => g a.creator s)
 
-/-- `regKey v` = the key validator `v` registered for the chain (`none`: no validator / no key /
-    unbonded) -/
-def cHandle (regKey : Addr → Option Nat) (s : CState) (a : CAttempt) : Option CState :=
+def cHandle (s : CState) (a : CAttempt) : Option CState :=
   if a.batchExists = false then none
-  else if regKey a.orch ≠ some a.ethSigner then none
+  else if regAcct s a.orch ≠ some a.ethSigner then none
   else if a.sigKey ≠ a.ethSigner then none
   else if a.sigItem ≠ a.batch then none
   else if s.confirms.any (fun c => c.batch == a.batch && c.orch == a.orch) = true then none
   else if s.confirms.any (fun c => c.batch == a.batch && c.key == a.ethSigner) = true then none
   else some { s with confirms := s.confirms ++ [⟨a.batch, a.orch, a.ethSigner, a.sigKey, a.sigItem⟩] }
 
-def cAccepted (regKey : Addr → Option Nat) (s : CState) (a : CAttempt) : Bool :=
-  cAnteOk a s.grants && (cHandle regKey s a).isSome
+def cAccepted (s : CState) (a : CAttempt) : Bool :=
+  cAnteOk a s.grants && (cHandle s a).isSome
 
-def cDeliver (regKey : Addr → Option Nat) (s : CState) (a : CAttempt) : CState :=
+def cDeliver (s : CState) (a : CAttempt) : CState :=
   if cAnteOk a s.grants = false then s
-  else match cHandle regKey s a with
+  else match cHandle s a with
     | none => s
     | some s' => s'
 
-def cRun (regKey : Addr → Option Nat) (s : CState) (as : List CAttempt) : CState :=
-  as.foldl (cDeliver regKey) s
+/-- a registration: `valset.AddExternalChainInfoForValidator` with one account on the chain -/
+structure CReg where
+  signers : List Addr
+  creator : Addr
+  /-- the address string -/
+  addr : Nat
+
+def cRegAnteOk (r : CReg) (g : Addr → Addr → Bool) : Bool :=
+  r.signers.contains r.creator || r.signers.any (fun s => g r.creator s)
+
+/-- `vals`: the staking validators (`CanAcceptValidator` refuses everybody else; the collision
+    loop runs over their stored chain infos).  Files the address under the CREATOR. -/
+def cRegister (vals : List Addr) (s : CState) (r : CReg) : Option CState :=
+  if vals.contains r.creator = false then none
+  else if vals.any (fun w => w != r.creator && s.keys w == some r.addr) = true then none
+  else some { s with keys := fun v => if v = r.creator then some r.addr else s.keys v }
+
+def cRegDeliver (vals : List Addr) (s : CState) (r : CReg) : CState :=
+  if cRegAnteOk r s.grants = false then s
+  else match cRegister vals s r with
+    | none => s
+    | some s' => s'
+
+inductive COp where
+  | attempt (a : CAttempt)
+  | register (r : CReg)
+
+def cStep (vals : List Addr) (s : CState) : COp → CState
+  | .attempt a => cDeliver s a
+  | .register r => cRegDeliver vals s r
+
+def cRun (vals : List Addr) (s : CState) (ops : List COp) : CState := ops.foldl (cStep vals) s
+
+def cInit : CState := { confirms := [], grants := fun _ _ => false, keys := fun _ => none }
 
 end Paloma.Auth
